@@ -717,7 +717,7 @@ impl Stream for Edits
 	}
 	fn count(&self, tier: Tier) -> u64
 	{
-		tier.pick(20_000, 300_000)
+		tier.pick(60_000, 300_000)
 	}
 	fn choice_len(&self) -> usize
 	{
@@ -820,7 +820,7 @@ impl Stream for GeneratedEdits
 	}
 	fn count(&self, tier: Tier) -> u64
 	{
-		tier.pick(60_000, 600_000)
+		tier.pick(120_000, 600_000)
 	}
 	fn choice_len(&self) -> usize
 	{
@@ -962,7 +962,7 @@ impl Stream for Invariants
 	}
 	fn count(&self, tier: Tier) -> u64
 	{
-		tier.pick(6000, 80_000)
+		tier.pick(12_000, 80_000)
 	}
 	fn choice_len(&self) -> usize
 	{
